@@ -85,7 +85,8 @@ EXPECT_PROBES = ("exit_commit", "exit_blocked", "exit_unknown_resource", "exit_c
                  "reregistered_while_held", "validator_raised_empty_message", "blocked_exit_judged",
                  "bystander_lock_watched_after_block", "weak_bystander_lock_named_after_block", "partial_checkpoints",
                  "no_g2_checkpoint", "priority_boosted_by_maintenance", "preemption_judged",
-                 "blocked_by_partially_released_preemptable_hold", "one_shot_request_iterable")
+                 "blocked_by_partially_released_preemptable_hold", "one_shot_request_iterable",
+                 "sweep_ended_several_operations_of_one_agent")
 
 RES = ["r0", "r1", "r2"]
 PHASES = {"G0": Phase.G0, "G1": Phase.G1, "S": Phase.S, "G2": Phase.G2, "M": Phase.M}
@@ -259,7 +260,7 @@ def _case(shape, foreign, faults, via_cell, prio=2, fprio=None, preempt=None, du
         reslist = list(reslist)
         reslist[0 if faults["unknown"] == "first" else -1] = "zz"
     cfg = {"res": flags, "limit": True, "starve": False, "progress": False, "via_cell": via_cell,
-           "register_agent": via_cell, "preowned": preowned}
+           "register_agent": via_cell, "preowned": preowned, "shared_agent": True}
     return cfg, pre, ["exec", "X", reslist, prio, faults]
 
 
@@ -359,6 +360,7 @@ def gen(rng, tier, i):
     cfg["starve"] = rng.random() < 0.2
     cfg["progress"] = rng.random() < 0.3
     cfg["register_agent"] = rng.random() < 0.5
+    cfg["shared_agent"] = rng.random() < 0.6
     # a second stepped holder, sometimes with a repeated acquisition
     if rng.random() < 0.4:
         r = rng.choice(RES)
@@ -395,7 +397,7 @@ def _rename(op, a, b):
 
 def simplify(plan):
     cfg = plan["config"]
-    for key in ("via_cell", "register_agent", "starve", "progress", "limit"):
+    for key in ("via_cell", "register_agent", "starve", "progress", "limit", "shared_agent"):
         if cfg.get(key):
             yield {**plan, "config": {**cfg, key: False}}
     if cfg.get("cp_phases") is not None:
@@ -741,6 +743,11 @@ def run(plan, k):
              ("system.py", "controller.py", "types.py", "watchdog.py", "priority.py")] + [seams.src("operon_ai/cell.py")]
 
     def apply_events(events, path):
+        per_agent = {}
+        for e in events or []:
+            per_agent[getattr(e, "agent_id", None)] = per_agent.get(getattr(e, "agent_id", None), 0) + 1
+        if any(n >= 2 for n in per_agent.values()):
+            k.probe("sweep_ended_several_operations_of_one_agent")
         for e in events or []:
             oid = getattr(e, "operation_id", None)
             if oid in w.live:
@@ -1027,7 +1034,9 @@ def run(plan, k):
                 rec = {"holds": {}, "stepped": True}
                 if not w.begin(op[1], rec):
                     continue
-                out = call(system.start_operation, op[1], "agent-" + op[1], op[2], tracer=tr)
+                # several operations of one agent (agent ids are free text; operations are keyed by operation id)
+                agent = "agent" if cfg.get("shared_agent") else "agent-" + op[1]
+                out = call(system.start_operation, op[1], agent, op[2], tracer=tr)
                 if out.kind != "ok":
                     k.violation("returns", out.kind, "start_operation", str(out.exc)[:200])
                     w.live.pop(op[1], None)
